@@ -186,9 +186,9 @@ class ExactPartition(FunctionContract):
 
 
 CG = "prtpy/partitioning/complete_greedy.py::anytime"
-cg_difference = ExactPartition("cg", CG, "difference", shapes_quick=[(n, k) for n in (1, 2, 3, 4) for k in (1, 2, 3) if (n, k) != (4, 3)], shapes_thorough=[(n, k) for n in range(1, 6) for k in (1, 2, 3)])
-cg_minmax = ExactPartition("cg", CG, "min-max", shapes_quick=[(n, k) for n in (1, 2, 3, 4) for k in (2, 3) if (n, k) != (4, 3)], shapes_thorough=[(n, k) for n in range(1, 6) for k in (2, 3)])
-cg_maxmin = ExactPartition("cg", CG, "max-min", shapes_quick=[(n, k) for n in (1, 2, 3, 4) for k in (1, 2, 3) if (n, k) != (4, 3)], shapes_thorough=[(n, k) for n in range(1, 6) for k in (1, 2, 3)])
+cg_difference = ExactPartition("cg", CG, "difference", shapes_quick=[(n, k) for n in (1, 2, 3, 4) for k in (1, 2, 3) if (n, k) != (4, 3)], shapes_thorough=[(n, k) for n in range(1, 5) for k in (1, 2, 3)])
+cg_minmax = ExactPartition("cg", CG, "min-max", shapes_quick=[(n, k) for n in (1, 2, 3, 4) for k in (2, 3) if (n, k) != (4, 3)], shapes_thorough=[(n, k) for n in range(1, 5) for k in (2, 3)])
+cg_maxmin = ExactPartition("cg", CG, "max-min", shapes_quick=[(n, k) for n in (1, 2, 3, 4) for k in (1, 2, 3) if (n, k) != (4, 3)], shapes_thorough=[(n, k) for n in range(1, 5) for k in (1, 2, 3)])
 
 
 class NoObjective(ExactPartition):
@@ -197,7 +197,7 @@ class NoObjective(ExactPartition):
 
 CKK = "prtpy/partitioning/complete_karmarkar_karp_sy.py::optimal"
 ckk = NoObjective("ckk", CKK, "difference", manager="Sums",
-                  shapes_quick=[(n, k) for n in (1, 2, 3) for k in (2, 3)] + [(4, 2)], shapes_thorough=[(n, k) for n in range(1, 5) for k in (2, 3)] + [(5, 2)])
+                  shapes_quick=[(n, k) for n in (1, 2, 3) for k in (2, 3)] + [(4, 2)], shapes_thorough=[(n, k) for n in range(1, 5) for k in (2, 3)])
 ckk_contents = NoObjective("ckk", CKK, "difference", manager="Contents", shapes_quick=[(1, 2), (2, 2), (3, 2)], shapes_thorough=[(1, 2), (2, 2), (3, 2), (3, 3)])
 dp_difference = ExactPartition("dp", "prtpy/partitioning/dynamic_programming.py::optimal", "difference",
                                shapes_quick=[(n, k) for n in (1, 2, 3) for k in (1, 2)], shapes_thorough=[(n, k) for n in (1, 2, 3) for k in (1, 2, 3)] + [(4, 2)])
@@ -303,7 +303,7 @@ class Cbldm(FunctionContract):
         from pyvc.concrete import unjson
         w = unjson(w)
         kw = {} if w["d"] is None else {"partition_difference": w["d"]}
-        r = prtpy.partition(algorithm=prtpy.partitioning.cbldm, numbins=2, items=list(w["values"]), outputtype=prtpy.out.Sums, **kw)
+        r = prtpy.partition(algorithm=target_fn("prtpy.partitioning.cbldm", "cbldm"), numbins=2, items=list(w["values"]), outputtype=prtpy.out.Sums, **kw)
         return sorted(float(x) for x in r)
 
 
@@ -422,7 +422,7 @@ dp_2smallest = ExactPartition("dp", "prtpy/partitioning/dynamic_programming.py::
 dp_2largest = ExactPartition("dp", "prtpy/partitioning/dynamic_programming.py::optimal", "2-largest",
                              shapes_quick=[(n, k) for n in (2, 3) for k in (2, 3)], shapes_thorough=[(n, k) for n in (2, 3) for k in (2, 3, 4)])
 EXACT_CONTRACTS = [("contracts.exact", n) for n in ("cg_difference", "cg_minmax", "cg_maxmin", "ckk", "ckk_contents", "dp_difference", "dp_minmax", "dp_maxmin",
-                                                    "dp_2smallest", "dp_2largest")]
+                                                    "dp_2smallest", "dp_2largest", "snp_part", "rnp_part")]
 
 
 # ------------------------------------------------------------------------------------------------ heuristics at bounded shape (C01, C08)
@@ -525,3 +525,16 @@ class CbldmArguments(FunctionContract):
 
 
 cbldm_arguments = CbldmArguments()
+
+
+# ------------------------------------------------------------------------------------------------ Korf's sequential / recursive number partitioning
+SNP = "prtpy/partitioning/sequential_number_partitioning_sy.py::snp"
+RNP = "prtpy/partitioning/recursive_number_partitioning_sy.py::rnp"
+class Coroutines(NoObjective):
+    """generator functions are run as coroutines (pyvc LazyGen): SNP tightens the bounds of its inclusion-exclusion trees while they are
+    being consumed, so what a tree yields next depends on what the consumer did with the previous subset"""
+    lazy_generators = True
+
+
+snp_part = Coroutines("snp", SNP, "difference", manager="Contents", shapes_quick=[(n, k) for n in (1, 2, 3) for k in (2, 3)], shapes_thorough=[(n, k) for n in (1, 2, 3) for k in (2, 3)] + [(4, 2)])
+rnp_part = NoObjective("rnp", RNP, "difference", manager="Contents", shapes_quick=[(n, k) for n in (1, 2, 3) for k in (2, 3)], shapes_thorough=[(n, k) for n in (1, 2, 3) for k in (2, 3)] + [(4, 2)])
